@@ -213,7 +213,7 @@ func (p *Prog) RVAnalyse() []RVFinding {
 	var srcs []src
 	taintedRet := map[*ssa.Function]string{}  // function returns a slice whose elements may be nil Types / invalid Values
 	taintedPrm := map[*ssa.Parameter]string{} // parameter is such a slice
-	for _, fn := range p.Funcs {
+	for _, fn := range p.AllFuncs() {
 		for _, b := range fn.Blocks {
 			for _, in := range b.Instrs {
 				call, ok := in.(*ssa.Call)
@@ -264,7 +264,7 @@ func (p *Prog) RVAnalyse() []RVFinding {
 	// propagate through in-package calls (one level is enough here; iterate to a fixed point anyway)
 	for changed := true; changed; {
 		changed = false
-		for _, fn := range p.Funcs {
+		for _, fn := range p.AllFuncs() {
 			for _, b := range fn.Blocks {
 				for _, in := range b.Instrs {
 					call, ok := in.(*ssa.Call)
